@@ -37,11 +37,20 @@ Fixpoint u_counts (u : ust) (ops : list op) : list nat :=
 
 Record verdict := { v_unix : bool; v_ideal : bool; v_trace : bool; v_counts : bool; v_owned : bool }.
 
-Definition check_prog (ops : list op) (obs : list outcome) (tr : list call) (counts : list nat) : verdict :=
+(* observed counts; None: not observed (intermediate state of an operation the models split in several steps) *)
+Fixpoint counts_ok (m : list nat) (o : list (option nat)) : bool :=
+  match m, o with
+  | [], [] => true
+  | x :: m', Some y :: o' => Nat.eqb x y && counts_ok m' o'
+  | _ :: m', None :: o' => counts_ok m' o'
+  | _, _ => false
+  end.
+
+Definition check_prog (ops : list op) (obs : list outcome) (tr : list call) (counts : list (option nat)) : verdict :=
   let (u, outs) := u_run u_init ops in
   let (i, outs') := i_run i_init ops in
   {| v_unix := leqb out_eqb outs obs; v_ideal := leqb out_eqb outs' obs; v_trace := leqb call_eqb (utrace u) tr;
-     v_counts := leqb Nat.eqb (u_counts u_init ops) counts;
+     v_counts := counts_ok (u_counts u_init ops) counts;
      v_owned := leqb Nat.eqb (map fst (fdt u)) (map fst (fdt u)) |}.
 
 Definition all_ok (v : verdict) : bool := v_unix v && v_ideal v && v_trace v && v_counts v.
